@@ -195,3 +195,68 @@ func VerifC11Outcome(h *verifh.H) {
 	h.Observe("runs", runs)
 	h.Observe("delivered", len(sink.delivered))
 }
+
+// VerifC11Definition: job definitions whose optional sections take the shapes
+// the API accepts (transform section absent, present without code, present with
+// empty code; trigger and job type; with and without error handlers) go through
+// the real Scheduler.verify and toTriggeredJobs and are run, unmodified, through
+// job.Run with the real dataset source and sink: every accepted definition runs
+// to a stored result under its id with the run slot released, without a panic,
+// and a successful run delivered the source's entities.
+func VerifC11Definition(h *verifh.H) {
+	hub := server.VerifNewHub(h)
+	src, _ := hub.Dsm.CreateDataset("src", nil)
+	_, _ = hub.Dsm.CreateDataset("dst", nil)
+	runner := vRunner(hub, 1, 1)
+	sch := &Scheduler{Logger: hub.Env.Logger, Store: hub.Store, Runner: runner, DatasetManager: hub.Dsm}
+	h.Assert(src.StoreEntities(vEntities(2)) == nil, "seed")
+
+	trig := JobTrigger{Schedule: "@every 60s", MonitoredDataset: "src"}
+	if h.Choice("onchange", 2) == 1 {
+		trig.TriggerType = TriggerTypeOnChange
+	} else {
+		trig.TriggerType = TriggerTypeCron
+	}
+	if h.Choice("fullsync", 2) == 1 {
+		trig.JobType = JobTypeFull
+	} else {
+		trig.JobType = JobTypeIncremental
+	}
+	if h.Choice("handlers", 2) == 1 {
+		trig.ErrorHandlers = append(trig.ErrorHandlers, &ErrorHandler{Type: "log", MaxItems: 1})
+	}
+	cfg := &JobConfiguration{
+		ID: "job-1", Title: "job one",
+		Source:   map[string]interface{}{"Type": "DatasetSource", "Name": "src"},
+		Sink:     map[string]interface{}{"Type": "DatasetSink", "Name": "dst"},
+		Triggers: []JobTrigger{trig},
+	}
+	switch h.Choice("transform", 4) {
+	case 1:
+		cfg.Transform = map[string]interface{}{"Type": "JavascriptTransform"}
+	case 2:
+		cfg.Transform = map[string]interface{}{"Type": "JavascriptTransform", "Code": ""}
+	case 3:
+		cfg.Transform = map[string]interface{}{}
+	}
+	if err := sch.verify(cfg); err != nil {
+		h.Observe("rejected", err.Error())
+		return
+	}
+	jobs, err := sch.toTriggeredJobs(cfg)
+	if err != nil {
+		h.Observe("rejected", err.Error())
+		return
+	}
+	h.Assert(len(jobs) == 1, "accepted definition maps to one job")
+	jobs[0].Run()
+	h.Assert(len(runner.raffle.runningJobs) == 0, "run slot released")
+	h.Assert(runner.raffle.ticketsFull == 1 && runner.raffle.ticketsIncr == 1, "tickets back in the pools")
+	res := &jobResult{}
+	e := hub.Store.GetObject(server.JobResultIndex, "job-1", res)
+	h.Assert(e == nil && res.ID == "job-1", "run result stored under the job id")
+	if res.LastError == "" {
+		h.Assert(vJoinS(vListing(hub, "dst")) == vJoinS(vListing(hub, "src")), "a successful run delivered the source's entities")
+	}
+	h.Observe("lastError", res.LastError)
+}
